@@ -158,6 +158,9 @@ type SimCluster struct {
 	DispatchFault func(r *SimRequest) error
 	// OnDispatch is called when a request is handed to the client library.
 	OnDispatch func(r *SimRequest)
+	// OnDeliver is called on the DCP thread right before (after=false) and right after (after=true)
+	// the observer callback of a packet.
+	OnDeliver func(p *SimPacket, after bool)
 	// OnApply is called right after a KV write has been applied.
 	OnApply func(w *SimWrite)
 
@@ -650,7 +653,13 @@ func (ag *simAgent) eventLoop(node int) {
 		ev := nc.events[0]
 		nc.events = nc.events[1:]
 		ag.delivering++
+		if ag.c.OnDeliver != nil {
+			ag.c.OnDeliver(&ev.pkt, false)
+		}
 		deliver(ev)
+		if ag.c.OnDeliver != nil {
+			ag.c.OnDeliver(&ev.pkt, true)
+		}
 		ag.delivering--
 	}
 }
